@@ -71,7 +71,7 @@ impl Report {
     pub fn add_finding(&mut self, f: Finding) {
         self.findings_total += 1;
         // keep the first of each signature, at most 40
-        if self.findings.len() < 40 && !self.findings.iter().any(|g| g.signature == f.signature && g.kind == f.kind) {
+        if self.findings.len() < 400 && !self.findings.iter().any(|g| g.signature == f.signature && g.kind == f.kind) {
             self.findings.push(f);
         }
     }
